@@ -203,6 +203,30 @@ var workloadTable = map[string]func(env *wl.Env){
 		}
 		wg.Wait()
 	},
+	// full duplex: one goroutine sends, another receives (it may be inside its decoder when the
+	// transport fails under the sender)
+	"duplex": func(env *wl.Env) {
+		s, err := env.Conn.NewStream(context.Background(), "/bdF", enc.Bytes{})
+		if err != nil {
+			return
+		}
+		getLog(env).last = s
+		var wg vs.WaitGroup
+		wg.Add(1)
+		vs.Go("receiver", func() {
+			for recv(env, s, "/bdF", "s2c") == nil {
+			}
+			wg.Done()
+		})
+		for i := 0; i < 2; i++ {
+			if send(env, s, "/bdF", "c2s", 'F', i) != nil {
+				break
+			}
+		}
+		_ = s.CloseSend()
+		wg.Wait()
+		_ = s.Close()
+	},
 	"bidi": func(env *wl.Env) {
 		s, err := env.Conn.NewStream(context.Background(), "/bdE", enc.Bytes{})
 		if err != nil {
@@ -371,7 +395,7 @@ func calls(cfg wl.Config, wname string) (cw, cr, sw, sr int, payloads map[string
 
 func basePlans(tier string) []mc.Plan {
 	var ps []mc.Plan
-	wnames := []string{"unary", "cstream", "sstream", "bidi", "unread", "concurrent3", "cleancancel-then-sstream"}
+	wnames := []string{"unary", "cstream", "sstream", "bidi", "duplex", "unread", "concurrent3", "cleancancel-then-sstream"}
 	if tier == "thorough" {
 		wnames = append(wnames, "unary2")
 	}
